@@ -294,10 +294,12 @@ fn split_comment_token(token: Token) -> Vec<Token> {
         let n_lines = prev_text.matches('\n').count() as u32;
         line += n_lines;
 
+        // Columns count characters (like the lexer's), not bytes.
         column = if n_lines == 0 {
-            column + prev_text.len() as u32
+            column + prev_text.chars().count() as u32
         } else {
-            (prev_text.len() - prev_text.rfind('\n').unwrap_or(0)) as u32
+            let last_line = &prev_text[prev_text.rfind('\n').map_or(0, |x| x + 1)..];
+            last_line.chars().count() as u32 + 1
         };
 
         prev_pos = pos;
@@ -317,7 +319,7 @@ fn split_comment_token(token: Token) -> Vec<Token> {
             line,
             column,
             length,
-            pos: pos as u32 + length,
+            pos: token.pos + pos as u32,
             source: token.source,
         };
         ret.push(token);
